@@ -23,7 +23,8 @@ def main(argv):
         print(__doc__)
         return 2
     if argv[0] == '--_class':
-        spec = json.loads(argv[1])
+        with open(argv[1]) as f:
+            spec = json.load(f)
         runner.class_main(spec['pid'], spec['seed'], spec['tier'],
                           spec['indices'], spec['workers'], spec['out'])
         return 0
